@@ -425,6 +425,24 @@ func (env *SpecEnv) localName(name string) (SVal, bool) {
 	// phis at the program point first (loop variables), then the most recent
 	// binding of the identifier according to the debug information (handles
 	// shadowing), then parameters / captured variables / named allocs.
+	if name == "rangeslice" && env.at != nil {
+		// the slice a `for ... range X` loop iterates over (X need not have a name):
+		// the header compares rangeindex+1 with len(X)
+		for _, ins := range env.at.Instrs {
+			bo, ok := ins.(*ssa.BinOp)
+			if !ok || bo.Op != token.LSS {
+				continue
+			}
+			if c, ok := bo.Y.(*ssa.Call); ok {
+				if b, isB := c.Call.Value.(*ssa.Builtin); isB && b.Name() == "len" && len(c.Call.Args) == 1 {
+					x := c.Call.Args[0]
+					if v, ok := fr.vals[x]; ok {
+						return SVal{T: ft.termOf(v, x.Type()), Typ: x.Type(), V: &v}, true
+					}
+				}
+			}
+		}
+	}
 	if env.at != nil && env.atLoopHeader {
 		for _, ins := range env.at.Instrs {
 			phi, ok := ins.(*ssa.Phi)
@@ -855,7 +873,7 @@ func (env *SpecEnv) quant(x EQuant) (SVal, error) {
 			s = ft.e.u.sortOf(t)
 		}
 		env.qn++
-		name := fmt.Sprintf("q$%s", v.Name)
+		name := fmt.Sprintf("q$%s$%d", v.Name, env.qn)
 		if old, ok := env.vars[v.Name]; ok {
 			o := old
 			saved[v.Name] = &o
@@ -878,6 +896,21 @@ func (env *SpecEnv) quant(x EQuant) (SVal, error) {
 		}
 		trigs = append(trigs, tv.T.S)
 	}
+	var altPats []string
+	for _, g := range x.TrigAlt {
+		var ts []string
+		for _, tr := range g {
+			env.inTrigger = true
+			tv, terr := env.eval(tr)
+			env.inTrigger = false
+			if terr != nil {
+				err = terr
+				break
+			}
+			ts = append(ts, tv.T.S)
+		}
+		altPats = append(altPats, fmt.Sprintf(":pattern (%s)", strings.Join(ts, " ")))
+	}
 	ft.inQuant--
 	for k, v := range saved {
 		if v == nil {
@@ -894,7 +927,7 @@ func (env *SpecEnv) quant(x EQuant) (SVal, error) {
 		q = "forall"
 	}
 	if len(trigs) > 0 {
-		body = fmt.Sprintf("(! %s :pattern (%s))", body, strings.Join(trigs, " "))
+		body = fmt.Sprintf("(! %s :pattern (%s)%s)", body, strings.Join(trigs, " "), strings.Join(append([]string{""}, altPats...), " "))
 	}
 	return SVal{T: Term{fmt.Sprintf("(%s (%s) %s)", q, strings.Join(binders, " "), body), SBool}}, nil
 }
